@@ -166,7 +166,7 @@ static void expect_set(Harness &H, const char *what, const Outcome &o, const Sup
 }
 
 static void run(Harness &H) {
-  const size_t NMAX = H.thorough() ? 8 : 6;
+  const size_t NMAX = H.thorough() ? 10 : 6;
   for (size_t n = 2; n <= NMAX; n++) {
     auto pts = grid_family("nonuni", n);
     Grid<S> g = mkgrid<S>(pts);
